@@ -54,7 +54,7 @@ Record c20_obs := mkC20 {
 Definition c20_one (prog : stmt) (o : c20_obs) : bool :=
   let s := c_script o in
   trace_beq (trace (cl_resume tie_fuel) (cl_init prog) s) (c_bare o)
-  && ltrace_beq (canon_ltrace [] (ltrace (pm_lresume (cl_resume tie_fuel) id_proc 4) (pm_init (cl_init prog) tt) s)) (c_pm o)
+  && ltrace_beq (canon_ltrace [] (ltrace (pm_lresume (cl_resume tie_fuel) id_proc true 4) (pm_init (cl_init prog) tt) s)) (c_pm o)
   && ltrace_beq (canon_ltrace [] (ltrace (mm_lresume (cl_resume tie_fuel) id_mproc 4) (mm_init (cl_init prog)) s)) (c_mm o)
   && Bool.eqb (negb (script_exc_only s)) (c_base_only o).
 
@@ -78,3 +78,33 @@ Definition c22_case (prog : stmt) (holes : list (bool * stmt)) (mute : list nat)
              ltrace_beq
                (canon_ltrace [] (mute_calls mute (ltrace (w_lresume tie_fuel) (pg_init prog (mk_holes holes)) (fst so))))
                (snd so)) l.
+
+(* ------------------------------------------------------------------ C21: plan_mutator with a table-driven msg_proc *)
+From BV Require Import Gen.InsertSpec.
+
+(* msg_proc given as a table: message id -> (head program, tail program); not listed = (None, None) *)
+Fixpoint tbl_get (m : msg) (t : list (msg * (option stmt * option stmt))) : option stmt * option stmt :=
+  match t with
+  | [] => (None, None)
+  | (k, v) :: r => if Nat.eqb m k then v else tbl_get m r
+  end.
+
+Definition tbl_proc (t : list (msg * (option stmt * option stmt))) : @pm_proc cl_state unit :=
+  fun s m => let ht := tbl_get m t in (s, option_map cl_init (fst ht), option_map cl_init (snd ht)).
+
+Definition pm_fuel : nat := 40.
+
+(* the machine of the repaired code, and the reference semantics, both against the observation *)
+Definition c21_case (host : stmt) (t : list (msg * (option stmt * option stmt)))
+           (l : list (list input * list nat * list (obs * list call))) : bool :=
+  forallb (fun so : list input * list nat * list (obs * list call) =>
+             let s := fst (fst so) in
+             let mute := snd (fst so) in        (* ids of single_gen(msg) heads: not instrumented *)
+             ltrace_beq
+               (canon_ltrace [] (mute_calls mute
+                  (ltrace (pm_lresume (cl_resume tie_fuel) (tbl_proc t) true pm_fuel) (pm_init (cl_init host) tt) s)))
+               (snd so)
+             && ltrace_beq
+                  (canon_ltrace [] (mute_calls mute
+                     (ltrace (is_lresume (cl_resume tie_fuel) (tbl_proc t) pm_fuel) (is_init (cl_init host) tt) s)))
+                  (snd so)) l.
